@@ -204,15 +204,25 @@ def main():
     violations, inconclusive, known, notes = [], [], [], []
     e2 = None
     try:
+        # E2 (mir2smt) obligations, additive; runs concurrently with the Kani harnesses
+        e2box = {}
+        e2thread = None
+        if meta.get("e2") and os.path.exists(os.path.join(HERE, "mir2smt.py")):
+            import threading
+
+            def run_e2():
+                try:
+                    import mir2smt
+                    e2box["r"] = mir2smt.run_for(prop, scratch, seed, a.tier)
+                except Exception as ex:  # noqa
+                    e2box["r"] = {"status": "inconclusive", "reason": "mir2smt exception: %r" % (ex,), "obligations": []}
+            e2thread = threading.Thread(target=run_e2)
+            e2thread.start()
         results = kanirun.run_many(scratch, specs, logdir,
                                    max_mem_gb=int(os.environ.get("VERIF_MEM_GB", "48")))
-        # E2 (mir2smt) obligations, additive
-        if meta.get("e2") and os.path.exists(os.path.join(HERE, "mir2smt.py")):
-            try:
-                import mir2smt
-                e2 = mir2smt.run_for(prop, scratch, seed, a.tier)
-            except Exception as ex:  # noqa
-                e2 = {"status": "inconclusive", "reason": "mir2smt exception: %r" % (ex,), "obligations": []}
+        if e2thread:
+            e2thread.join()
+            e2 = e2box.get("r")
         for s in specs:
             r = results[s["key"]]
             s["result"] = r
@@ -311,7 +321,7 @@ def main():
             shutil.copytree(logdir, dst)
         if confirmed:
             sys.exit(1)
-        if inconclusive or not specs:
+        if inconclusive or not specs or npass == 0:
             sys.exit(2)
         sys.exit(0)
     finally:
